@@ -23,7 +23,7 @@ REQUIRED = ["Sqfs.C17." + n for n in (
     "sort_perm", "sort_sorted", "sort_stable", "first_match_wins", "exact_line_matches_one",
     "dont_compress_words", "dont_fragment_effect", "nosparse_effect", "no_tail_packing_only_large",
     "no_tail_packing_layout", "dont_compress_effect", "dont_dedup_effect", "layout_follows_order",
-    "directives_preserve_content", "export_table_ok")]
+    "directives_preserve_content", "export_table_ok", "quoted_name_decodes")]
 
 F_DC, F_DF, F_DD, F_NS = 1, 4, 8, 16          # cross-checked against the generated constants in run()
 FLAGNAMES = {F_DC: "dont_compress", F_DF: "dont_fragment", F_DD: "dont_deduplicate", F_NS: "nosparse"}
@@ -81,6 +81,7 @@ class Env:
 
 
 _reported = set()
+_distinct = set()          # distinct non-trivial inputs of this run (measured)
 
 
 def report_once(ctx, key, what, replay):
@@ -312,6 +313,7 @@ def part_a(ctx, env, cases):
             res = parse_sorted(rr)
             if [p for p, _, _ in res] != init or any(x[1] or x[2] for x in res):
                 stats["nontrivial"] += 1
+                _distinct.add(vlib.sha(hl[j])[:16])
         else:
             stats["sort_err"] += 1
             k = rr.split()[1]
@@ -919,6 +921,7 @@ def judge(case, res, summary):
     if "matched" not in res:
         return out
     summary["compared"] += 1
+    _distinct.add("pack:" + case_hash(case))
     clause_bad = list(res["effects"]) + [("directives_preserve_content", p) for p in res["content_bad"]] \
         + [("directives_preserve_content(readFile)", p) for p in (res.get("readback_bad") or [])] \
         + [("layout_follows_order", p) for p in res["order_bad"]] + [("export_table_ok", e) for e in res["export_bad"]]
@@ -1061,12 +1064,12 @@ def run(ctx):
     ctx.log("part B: %s" % summary)
     ctx.cov.update({
         "evaluations": sa.get("sort_cases", 0) + len(cases_b),
-        "distinct_nontrivial": sa.get("nontrivial", 0) + summary["compared"],
+        "distinct_nontrivial": len(_distinct),
         "rule": "A: %d generated (file list, sort file) pairs + %d corpus through the real fstree_sort_files (ASan+UBSan) and the model, "
                 "fnmatch answered by libc; non-trivial = the sort changed order/priority/flags of some file.  "
                 "B: %d generated + %d corpus trees packed by the real gensquashfs/tar2sqfs, image decoded independently and compared "
                 "with specPack (data area byte for byte, fragment table, every file inode's layout fields); non-trivial = image decoded "
-                "and compared" % (len(cases_a) - ncorpus_a, ncorpus_a, ngen, ncorpus_b),
+                "and compared; distinct_nontrivial counts distinct inputs (hash of the harness line / of the case)" % (len(cases_a) - ncorpus_a, ncorpus_a, ngen, ncorpus_b),
         "samples": [{"paths": [p.decode("latin1") for p in cases_a[i][0]], "sortfile": cases_a[i][1].decode("latin1")} for i in
                     (ncorpus_a, ncorpus_a + 1, len(cases_a) - 1)] +
                    [{"tool": c["tool"], "B": c["B"], "comp": c["comp"], "sizes": [len(x) for x in c["contents"]],
